@@ -353,13 +353,59 @@ fn json_grammar(t: &St) -> Vec<Value> {
 
 /// is the decode of `x` under `t` predicted to materialise more than `limit` zero-width elements?
 fn dangerous(t: &St, x: &[u8]) -> bool {
-    match shape_of(t) {
+    // the schema-of-schema kind has no serde shape; for PREDICTION it is replaced by a one-byte kind
+    // (over-approximates: the dynamic decoder stops at such a node, the prediction reads on)
+    fn lossy(t: &St) -> St {
+        match t {
+            St::Schema => St::U8,
+            St::Option(i) => St::Option(Box::new(lossy(i))),
+            St::Seq(i) => St::Seq(Box::new(lossy(i))),
+            St::Tuple(l) => St::Tuple(l.iter().map(lossy).collect()),
+            St::Map(k, v) => St::Map(Box::new(lossy(k)), Box::new(lossy(v))),
+            St::Struct(n, d) => St::Struct(n.clone(), lossy_d(d)),
+            St::Enum(n, vs) => St::Enum(n.clone(), vs.iter().map(|(a, d)| (a.clone(), lossy_d(d))).collect()),
+            o => o.clone(),
+        }
+    }
+    fn lossy_d(d: &Sd) -> Sd {
+        match d {
+            Sd::Unit => Sd::Unit,
+            Sd::Newtype(i) => Sd::Newtype(Box::new(lossy(i))),
+            Sd::Tuple(l) => Sd::Tuple(l.iter().map(lossy).collect()),
+            Sd::Struct(l) => Sd::Struct(l.iter().map(|(n, t)| (n.clone(), lossy(t))).collect()),
+        }
+    }
+    match shape_of(&lossy(t)) {
         Some(sh) => {
             let sd = spec_decode(&sh, x);
             sd.budget_exceeded || sd.max_zero_width_claim > 4096
         }
         None => false,
     }
+}
+
+fn claimed_zero_width(t: &St, x: &[u8]) -> u64 {
+    fn lossy(t: &St) -> St {
+        match t {
+            St::Schema => St::U8,
+            St::Option(i) => St::Option(Box::new(lossy(i))),
+            St::Seq(i) => St::Seq(Box::new(lossy(i))),
+            St::Tuple(l) => St::Tuple(l.iter().map(lossy).collect()),
+            St::Map(k, v) => St::Map(Box::new(lossy(k)), Box::new(lossy(v))),
+            St::Struct(n, d) => St::Struct(n.clone(), lossy_d(d)),
+            St::Enum(n, vs) => St::Enum(n.clone(), vs.iter().map(|(a, d)| (a.clone(), lossy_d(d))).collect()),
+            o => o.clone(),
+        }
+    }
+    fn lossy_d(d: &Sd) -> Sd {
+        match d {
+            Sd::Unit => Sd::Unit,
+            Sd::Newtype(i) => Sd::Newtype(Box::new(lossy(i))),
+            Sd::Tuple(l) => Sd::Tuple(l.iter().map(lossy).collect()),
+            Sd::Struct(l) => Sd::Struct(l.iter().map(|(n, t)| (n.clone(), lossy(t))).collect()),
+        }
+    }
+    shape_of(&lossy(t)).map(|sh| spec_decode(&sh, x).total_zero_width_claim as u64).unwrap_or(0)
 }
 
 fn c18_bytes_case(ctx: &Ctx, t: &St, schema: &postcard_schema::schema::owned::OwnedDataModelType, schema_json: &str, x: &[u8], order: u64, st: &mut [u64; 3]) {
@@ -398,7 +444,7 @@ fn c18_bytes_case(ctx: &Ctx, t: &St, schema: &postcard_schema::schema::owned::Ow
             if stats.requested > bound {
                 // precise class for the known finding: a sequence of zero-width elements allocates one
                 // JSON node per CLAIMED element although the elements occupy no input bytes
-                let claimed = shape_of(t).map(|sh| spec_decode(&sh, x).max_zero_width_claim as u64).unwrap_or(0);
+                let claimed = claimed_zero_width(t, x);
                 let class = if claimed > 0 && stats.requested <= bound + 512 * claimed * t.nodes() as u64 { "dyn-decode-alloc-proportional-to-claimed-zero-width-count" } else { "dyn-decode-alloc-bound" };
                 ctx.violation(class, format!("{} bytes requested for a {}-byte input (bound {}; claimed zero-width elements: {})", stats.requested, x.len(), bound, claimed), order, case());
             }
